@@ -32,7 +32,7 @@ RULE = ("input charts from three kinds of source: (1) ~72% built through the lis
         "through every editing route of the library (list property column assignment on offset/length/column, Stacker over all "
         "lists / over (type(hits), type(holds)) / base classes / NoteList / one list, Stacker.loc with a column or time condition, "
         "a list replaced through the map property / in objs / by swapping or copying its .df, filter + append that moves notes "
-        "between hits and holds or re-times them keeping the row total); every call is judged on its own against the content the "
+        "between hits and holds or re-times them keeping the row total, single cells through the list's loc / iloc); every call is judged on its own against the content the "
         "chart has at that moment, read through the plain list API (never through stack()).  "
         "non-trivial = some column holds at least two notes (sessions: and at least two calls were judged)")
 ASSUMPTIONS = [
@@ -42,9 +42,15 @@ ASSUMPTIONS = [
     "(`skipped` tag, outside the domain); charts read / converted / rated are judged on the exact stream when every value is a "
     "small dyadic, else on the tolerance stream",
     "stream T: lengths are compared within 2^-46 * (1 + largest operand magnitude); a threshold comparison closer than "
-    "that to its boundary is counted as float-boundary and only conservation is judged",
+    "that to its boundary is counted as float-boundary and only conservation is judged; a result length within the tolerance both "
+    "of the rule's value and of the length the note was given is read as either",
+    "sessions: the edits between the calls are applied to the real chart through the library's own routes and the chart is read "
+    "back through the list API before every call (the edits themselves are not modelled; an edit route that refuses a chart ends "
+    "the session, the calls judged so far count)",
+    "negative gap / threshold and hold rows with NaN length built by the test are outside the property's range / the domain: "
+    "code and model are compared, the specification is not evaluated",
 ]
-TRUSTED_EXTRA = ["chart builders of harness/props/c17.py (frames are built column by column with the declared defaults)"]
+TRUSTED_EXTRA = ["chart builders and edit routes of harness/props/c17.py (frames are built column by column with the declared defaults)"]
 
 GAMES = ["base", "osu", "qua", "bms", "o2j", "sm"]
 SM_HIT_EXTRAS = ["fakes", "lifts", "keysounds", "mines"]
@@ -474,7 +480,7 @@ def snap_lengths(impl_rows, inp_rows, gap, tol, prefer="rule"):
         if ln is None:
             out.append((off, c, ln))
             continue
-        fam = dict(rule=[t[0] - off - gap for t in cols.get(c, [])],
+        fam = dict(rule=[t[0] - off - gap for t in cols.get(c, []) if t[0] >= off],      # the next note is never an earlier one
                    given=[t[2] for t in cols.get(c, []) if t[0] == off and t[2] is not None])
         pick = ln
         for name in ([prefer] + [k for k in ("rule", "given") if k != prefer]):
@@ -601,9 +607,19 @@ def judge_call(m, gap, thr, drv, case, tags, fixed_mode=None):
     # ---- (S) specification on the implementation's output: hits+holds of the result against hits+holds of the input
     sp = drv.call("c17.spec", gap=R(gap), thr=R(thr), inp=[jrow(r) for r in inp], out=[jrow(r) for r in out_new_s])["ok"]
     if mode == "T" and not (sp["spec"] and sp["no_overlap"]):
+        # lengths that are within tol of a value of both families: the other reading, column by column
         alt = snap_lengths(out_new, seen, gap, tol, prefer="given")
         if alt != out_new_s:
-            sp2 = drv.call("c17.spec", gap=R(gap), thr=R(thr), inp=[jrow(r) for r in inp], out=[jrow(r) for r in alt])["ok"]
+            ic, a1, a2 = by_column(inp), by_column(out_new_s), by_column(alt)
+            mixed = []
+            for c in set(a1) | set(a2):
+                r1, r2 = a1.get(c, []), a2.get(c, [])
+                if r1 != r2:
+                    s1 = drv.call("c17.spec", gap=R(gap), thr=R(thr), inp=[jrow(r) for r in ic.get(c, [])], out=[jrow(r) for r in r1])["ok"]
+                    if not (s1["spec"] and s1["no_overlap"]):
+                        r1 = r2
+                mixed += r1
+            sp2 = drv.call("c17.spec", gap=R(gap), thr=R(thr), inp=[jrow(r) for r in inp], out=[jrow(r) for r in mixed])["ok"]
             if sp2["spec"] and sp2["no_overlap"]:
                 sp = sp2
     if boundary:
@@ -680,7 +696,7 @@ def judge_call(m, gap, thr, drv, case, tags, fixed_mode=None):
 # moment of the call, read through the plain list API.  A result may depend on nothing but that content.
 
 STACK_TYPES = ["all", "hh", "hh_base", "notes", "holds", "hits"]
-EDIT_KINDS = ["col", "stack", "loc", "rebuild", "swapkind", "retime"]
+EDIT_KINDS = ["col", "stack", "loc", "rebuild", "swapkind", "retime", "cell"]
 MAX_STEPS = 4
 MAX_EDITS = 4
 
@@ -813,6 +829,24 @@ def apply_edit(m, ed):
         new = a[mask].append(make_list(type(a), moved, ed.get("build", "frame")), sort=bool(ed.get("sort")))
         setattr(m, which, new)
         return
+    if k == "cell":                                  # single cells through the list's loc / iloc shorthands
+        lst = m.objs[ed["list"]]
+        n = len(lst)
+        if n == 0:
+            return
+        f, v = ed["field"], float(F(ed["v"]))
+        if f not in lst.df.columns:
+            raise Skip("no such column")
+        for i in sorted({i % n for i in ed["sel"]}):
+            if ed["route"] == "loc":
+                lab = lst.df.index[i]
+                if list(lst.df.index).count(lab) != 1:
+                    raise Skip("row labels are not unique")
+                lst.loc[lab, f] = lst.loc[lab, f] + v
+            else:
+                j = list(lst.df.columns).index(f)
+                lst.iloc[i, j] = lst.iloc[i, j] + v
+        return
     raise Skip("unknown edit")
 
 
@@ -888,8 +922,14 @@ def gen_edit(rng, exact):
             return Fr(rng.choice(choices_e))
         return Fr(round(rng.uniform(lo, hi), rng.choice([0, 1, 3])))
     shift = lambda: num([1500, 33, 1, 250, -100, 1000, Fr(1, 2), Fr(7, 4), -1500, 64, 100000], -2000, 5000)
-    k = rng.choice(["col", "col", "stack", "stack", "stack", "loc", "loc", "rebuild", "rebuild", "swapkind", "retime"])
+    k = rng.choice(["col", "col", "stack", "stack", "stack", "loc", "loc", "rebuild", "rebuild", "swapkind", "retime", "cell"])
     build = rng.choice(BUILDS)
+    if k == "cell":
+        lst = rng.choice(["hits", "holds", "holds"])
+        f = rng.choice(["offset", "length"]) if lst == "holds" else "offset"
+        v = num([33, 1, 100, 500, Fr(1, 4)], 0, 500) if f == "length" else shift()
+        return dict(k=k, list=lst, field=f, route=rng.choice(["loc", "iloc"]), v=R(v),
+                    sel=[rng.randrange(0, 1000) for _ in range(rng.choice([1, 1, 2, 4]))])
     if k == "col":
         lst = rng.choice(["hits", "holds", "holds"])
         f = rng.choice(["offset", "offset", "length", "column"]) if lst == "holds" else rng.choice(["offset", "offset", "column"])
@@ -1381,6 +1421,12 @@ def _edit_ok(ed):
         return (ed.get("dir") in ("h2l", "l2h") and isinstance(ed.get("sel"), list) and 1 <= len(ed["sel"]) <= 8
                 and all(isinstance(i, int) and not isinstance(i, bool) and i >= 0 for i in ed["sel"])
                 and rat(ed.get("len")) and ed["len"][0] >= 0)
+    if k == "cell":
+        return (ed.get("list") in ("hits", "holds") and ed.get("field") in ("offset", "length") and ed.get("route") in ("loc", "iloc")
+                and not (ed["field"] == "length" and ed["list"] != "holds") and rat(ed.get("v"))
+                and not (ed["field"] == "length" and ed["v"][0] < 0)
+                and isinstance(ed.get("sel"), list) and 1 <= len(ed["sel"]) <= 8
+                and all(isinstance(i, int) and not isinstance(i, bool) and i >= 0 for i in ed["sel"]))
     if k == "retime":
         return (ed.get("list") in ("hits", "holds") and isinstance(ed.get("sel"), list) and 1 <= len(ed["sel"]) <= 8
                 and all(isinstance(i, int) and not isinstance(i, bool) and i >= 0 for i in ed["sel"]) and rat(ed.get("shift")))
